@@ -132,17 +132,20 @@ type scenario struct {
 	Stderr bool    `json:"stderr,omitempty"`
 	Chunks [][]seg `json:"chunks,omitempty"`
 	// children
-	Ops      []op     `json:"ops,omitempty"`
-	Exit     int      `json:"exit,omitempty"`
-	Signal   int      `json:"signal,omitempty"` // die by this signal after the writes
-	Env      []string `json:"env,omitempty"`    // additional environment ("K=V")
-	Msgs     bool     `json:"msgs,omitempty"`   // custom start/success/failure messages (false: the defaults)
-	Sh       string   `json:"sh,omitempty"`     // `sh -c` script instead of the self child ...
-	ShOut    []seg    `json:"sh_out,omitempty"` // ... and the bytes it writes
-	ShErr    []seg    `json:"sh_err,omitempty"`
-	Cancel   string   `json:"cancel,omitempty"`   // ctx | deadline | method | pre: interrupt the child (it hangs after its writes)
-	NotFound string   `json:"notfound,omitempty"` // run this (non-existent) command instead
-	Func     bool     `json:"func,omitempty"`     // use the package-level functions (Execute / Output) instead of New + (*Subprocess).Execute / OutputWithEnvironment
+	Ops        []op     `json:"ops,omitempty"`
+	Exit       int      `json:"exit,omitempty"`
+	Signal     int      `json:"signal,omitempty"` // die by this signal after the writes
+	Env        []string `json:"env,omitempty"`    // additional environment ("K=V")
+	Msgs       bool     `json:"msgs,omitempty"`   // custom start/success/failure messages (false: the defaults)
+	Sh         string   `json:"sh,omitempty"`     // `sh -c` script instead of the self child ...
+	ShOut      []seg    `json:"sh_out,omitempty"` // ... and the bytes it writes
+	ShErr      []seg    `json:"sh_err,omitempty"`
+	Cancel     string   `json:"cancel,omitempty"`       // ctx | deadline | method | pre: interrupt the child (it hangs after its writes)
+	NotFound   string   `json:"notfound,omitempty"`     // run this (non-existent) command instead
+	LogDelayUs int      `json:"log_delay_us,omitempty"` // the recording logger takes this long for every message
+	StallAt    int      `json:"stall_at,omitempty"`     // ... and stalls once, at its n-th message (1-based),
+	StallMs    int      `json:"stall_ms,omitempty"`     // for this long
+	Func       bool     `json:"func,omitempty"`         // use the package-level functions (Execute / Output) instead of New + (*Subprocess).Execute / OutputWithEnvironment
 }
 
 // childScript is what the self child reads.
@@ -207,8 +210,12 @@ type logEntry struct {
 }
 
 type rec struct {
-	mu   sync.Mutex
-	msgs []logEntry
+	mu      sync.Mutex
+	msgs    []logEntry
+	delay   time.Duration // per message (a slow logger: the child may have exited long before its output is consumed)
+	stallAt int
+	stall   time.Duration
+	seen    int
 }
 
 func (r *rec) Close() error                 { return nil }
@@ -225,6 +232,16 @@ func (r *rec) add(ch string, a []interface{}) {
 		} else {
 			msg = fmt.Sprint(a[0])
 		}
+	}
+	r.mu.Lock()
+	r.seen++
+	n := r.seen
+	r.mu.Unlock()
+	if r.delay > 0 {
+		time.Sleep(r.delay)
+	}
+	if r.stallAt > 0 && n == r.stallAt {
+		time.Sleep(r.stall)
 	}
 	r.mu.Lock()
 	r.msgs = append(r.msgs, logEntry{Ch: ch, Msg: msg, NArgs: len(a)})
@@ -357,7 +374,7 @@ func waitFor(path string, max time.Duration) bool {
 // runChild runs one child scenario on the real library. attempt (0..2) only stretches the waits of interrupted runs.
 func runChild(sc scenario, attempt int) observation {
 	var o observation
-	r := &rec{}
+	r := &rec{delay: time.Duration(sc.LogDelayUs) * time.Microsecond, stallAt: sc.StallAt, stall: time.Duration(sc.StallMs) * time.Millisecond}
 	o.rec = r
 	cmd, args, ready := sc.command()
 	settle := []time.Duration{150 * time.Millisecond, 600 * time.Millisecond, 2 * time.Second}[attempt]
@@ -1151,6 +1168,45 @@ func deterministicChildren(r *h.Run) []scenario {
 	return scs
 }
 
+// slowLoggers: loggers of different speeds x bursts smaller / larger than one read of the pipe x exit status 0 / non-zero.
+// The child writes its burst at once and exits; most of the output is consumed after it has gone.
+func slowLoggers(r *h.Run) []scenario {
+	burst := func(n int, tag byte) []byte {
+		var b []byte
+		for i := 0; i < n; i++ {
+			b = append(b, []byte(fmt.Sprintf("%c%06d ", tag, i))...)
+			b = append(b, rep('a'+byte(i%26), 31)...)
+			b = append(b, '\n')
+		}
+		return b
+	}
+	type speed struct{ delayUs, stallAt, stallMs int }
+	var scs []scenario
+	i := 0
+	for _, lines := range []int{120, r.N(2500, 12000)} { // 4.8 kB: one read; >= 100 kB: several reads of 32 KiB, more than the pipe holds
+		for _, sp := range []speed{{0, 0, 0}, {200, 0, 0}, {1000, 0, 0}, {0, lines / 2, 1500}, {0, lines / 3, 3000}} {
+			for _, exit := range []int{0, 3} {
+				kind := "exec"
+				if i%5 == 4 {
+					kind = "output"
+				}
+				sc := childSc(kind, i%3 != 0, exit, 0, wb(1, burst(lines, 'o'), 0))
+				if i%2 == 1 { // also on the error stream, unterminated last line
+					e := burst(lines/2, 'e')
+					sc.Ops = append(sc.Ops, wb(2, e[:len(e)-1], 0))
+				}
+				sc.LogDelayUs, sc.StallAt, sc.StallMs = sp.delayUs, sp.stallAt, sp.stallMs
+				sc.Func = i%4 < 2
+				scs = append(scs, sc)
+				i++
+			}
+		}
+	}
+	return scs
+}
+
+func slow(sc scenario) bool { return sc.LogDelayUs > 0 || sc.StallMs > 0 }
+
 func randomAdapter(r *h.Run) scenario {
 	big := r.Rng.Intn(8) == 0
 	max := 2000
@@ -1286,6 +1342,7 @@ func main() {
 	} else {
 		scs = append(scs, deterministicAdapter()...)
 		scs = append(scs, deterministicChildren(r)...)
+		scs = append(scs, slowLoggers(r)...)
 		for i := 0; i < r.N(300, 3000); i++ {
 			scs = append(scs, randomAdapter(r))
 		}
@@ -1305,6 +1362,14 @@ func main() {
 			continue
 		}
 		wg.Add(1)
+		if slow(scs[i]) { // mostly sleeping: all of them at once, beside the pool
+			go func(i int) {
+				defer wg.Done()
+				o, vs := execute(scs[i], 0)
+				results[i] = result{o, vs}
+			}(i)
+			continue
+		}
 		sem <- struct{}{}
 		go func(i int) {
 			defer wg.Done()
@@ -1363,6 +1428,14 @@ func main() {
 			}
 			if len(sc.Env) > 0 {
 				r.Count("with extra environment")
+			}
+			switch {
+			case sc.StallMs > 0:
+				r.Count(fmt.Sprintf("logger: stalls %d ms", sc.StallMs))
+			case sc.LogDelayUs > 0:
+				r.Count(fmt.Sprintf("logger: %d us per message", sc.LogDelayUs))
+			default:
+				r.Count("logger: instant")
 			}
 			if sc.Func {
 				r.Count("entry:package-level function")
